@@ -474,7 +474,7 @@ func ScStress(seed uint64, hevc bool) Outcome {
 			tb.WriteByte(',')
 		}
 		p := w.pubs[uid]
-		fmt.Fprintf(&tb, "%d:%s", p.Channel, hexOf(p.Payload()))
+		fmt.Fprintf(&tb, "%d:%d:%s", p.Channel, TsOf(p), hexOf(p.Payload()))
 	}
 	w.mu.Unlock()
 	tb.WriteByte(' ')
